@@ -13,12 +13,8 @@ def tlc_cfg(c):
                       properties=("Thm_Indep", "Thm_Write"), action_constraints=("Emit",), deadlock=False)
 
 
-def run_model(c):
-    stats = T.run_tlc("MC_Attrs", tlc_cfg(c), tag=c["name"], timeout=7200)
-    T.require_ok(stats)
-    if stats["lines"] != stats["generated"] - 1:
-        raise T.MachineryError("%s: %d vectors for %d transitions" % (c["name"], stats["lines"], stats["generated"] - 1))
-    return stats
+def run_model(c, coverage=False):
+    return T.run_vectors("MC_Attrs", tlc_cfg(c), c["name"], lambda st: st["generated"] - 1)
 
 
 def run(tier, repo=None, procs=16):
